@@ -9,6 +9,7 @@ CODEC_ASSUME = [
 PROPS = {
     "C18": {
         "kind": "codec", "modules": ["OAP.Props.C18"], "gens": ["C18"],
+        "client_batch": ["dial_registered_only"],
         "rule": "exhaustive: all 16^4 field tuples through Handshake.Pack, all 2^16 byte pairs through Unpack, lengths 0..5/8/64, all 256 versions "
                 "through GetProtocol and Context.Handshake; each compared with the Lean model and checked against the property directly on the Go "
                 "code. Distinct = distinct operation lines; every one exercises the codec (non-trivial).",
@@ -62,6 +63,7 @@ PROPS = {
     },
     "C10": {
         "kind": "codec", "modules": ["OAP.Props.C10"], "gens": ["C10"],
+        "client_batch": ["stream_shape", "exactly_once_in_order"],
         "rule": "Compress/Decompress of the real code on generated byte strings (empty, repeated, random, compressible text; 0 B .. 100 kB, thorough: "
                 "MBs); EVERY truncation point and single-bit/byte corruptions of small valid streams incl. CRC and ISIZE; trailers understating / "
                 "overstating the size; trailing garbage; multi-member streams; hostile tiny streams claiming 2^24..2^31 bytes; random bytes with and "
@@ -95,6 +97,7 @@ PROPS = {
     },
     "C19": {
         "kind": "codec", "modules": ["OAP.Props.C19"], "gens": ["C19"],
+        "client_batch": ["ids_from_one"],
         "rule": "random mixes of NewRequest/MustNewRequest/NewResponse/MustNewResponse/NewPush/MustNewPush with random WithVerify/WithRequestId/"
                 "WithStatusCode options on a context (an independent context stepped in between), ids/status/verify compared with the model and with "
                 "the property (k-th request id = k whatever the options; response/push id = the caller's); G goroutines x M calls on one context "
